@@ -53,6 +53,7 @@ type thread struct {
 	id    int
 	wake  chan struct{}
 	want  interface{} // mutex the thread is about to acquire (nil = none)
+	cond  func() bool // Await: the thread is enabled only while this holds (nil = not waiting)
 	done  bool
 	fn    func()
 	panic string
@@ -141,6 +142,20 @@ func (s *Sched) access(p unsafe.Pointer, site int, write bool) {
 
 // Now returns the logical clock and advances it; harness logs use it to order events exactly.
 func (s *Sched) Now() int { s.clock++; return s.clock }
+
+// Await blocks the calling thread until cond holds (evaluated by the scheduler whenever it picks the next thread): the
+// way harness code waits for another thread - a visible, schedulable wait, so "everybody waits" is a deadlock observation
+// and not a hung process.
+func (s *Sched) Await(cond func() bool) {
+	t := s.cur
+	if t == nil {
+		return
+	}
+	t.cond = cond
+	s.yield <- struct{}{}
+	<-t.wake
+	t.cond = nil
+}
 
 // Cur returns the id of the thread that is running.
 func (s *Sched) Cur() int {
@@ -256,6 +271,9 @@ func Run(ch *core.Chooser, fine bool, fns ...func(s *Sched)) *Result {
 				if _, isHeld := s.held[t.want]; isHeld {
 					continue
 				}
+			}
+			if t.cond != nil && !t.cond() {
+				continue
 			}
 			enabled = append(enabled, t)
 		}
